@@ -72,7 +72,11 @@ class Highlighter(object):
     def highlighted_lines(self, source):
         source = source.replace("\r\n", "\n").replace("\r", "\n")
 
-        return self.split_to_lines(source)
+        try:
+            return self.split_to_lines(source)
+        except (tokenize.TokenError, SyntaxError):
+            # Not (complete) Python source: the lines are shown as they are
+            return [line.replace("<", "\\<") for line in source.split("\n")]
 
     def split_to_lines(self, source):
         lines = []
